@@ -320,7 +320,7 @@ def _strategy():
 
 
 def run(ctx):
-    ctx.hyp(_strategy, check_case, max_examples=ctx.pick(6000, 150000))
+    ctx.hyp(_strategy, check_case, max_examples=ctx.pick(5000, 150000))
 
 
 def replay(case):
